@@ -14,6 +14,7 @@ import (
 	"strconv"
 	"strings"
 	"sync/atomic"
+	"time"
 	"verif/props/zipx"
 
 	"golang.org/x/mod/module"
@@ -28,6 +29,7 @@ type entryT struct {
 	Size string `json:"declared_size"` // honest | smaller | zero | half | larger | huge-gomod | huge-license | huge-total
 	Dir  bool   `json:"directory_entry,omitempty"`
 	Mode string `json:"header_mode_bits,omitempty"`
+	Form string `json:"header_form,omitempty"`
 }
 
 type caseT struct {
@@ -52,6 +54,8 @@ type ent struct {
 	content string
 	size    string
 	mode    string // "" | dir | symlink | exec | device: mode bits in the entry's header (the name decides what an entry is, not these)
+	// form: "" (stored) | deflate | comment (entry comment and extra field) | old (modification time in 1980)
+	form string
 }
 
 func (e ent) fileMode() (fs.FileMode, bool) {
@@ -106,6 +110,15 @@ func build(entries []ent) ([]byte, error) {
 			fh := &zip.FileHeader{Name: e.name, Method: zip.Store}
 			if m, ok := e.fileMode(); ok {
 				fh.SetMode(m)
+			}
+			switch e.form {
+			case "deflate":
+				fh.Method = zip.Deflate
+			case "comment":
+				fh.Comment = "entry comment with a / and .. and \x00"
+				fh.Extra = []byte{0x99, 0x99, 4, 0, 1, 2, 3, 4}
+			case "old":
+				fh.Modified = time.Date(1980, 1, 1, 0, 0, 0, 0, time.UTC)
 			}
 			w, err := zw.CreateHeader(fh)
 			if err != nil {
@@ -354,6 +367,18 @@ func Run(r *fw.Run) {
 			jobs = append(jobs, job{mv[0], mv[1], []ent{mk(pf + "go.mod"), mk(pf + p)}})
 		}
 	}
+	// other header forms: deflated content, entry comments and extra fields, an old modification time,
+	// alone and mixed with stored entries; an archive comment
+	for _, fm := range []string{"deflate", "comment", "old"} {
+		for _, n := range []string{"a.go", "go.mod", "sub/x.go", "d/", "LICENSE", "../x", "A.GO"} {
+			e := mk(prefixes[0] + n)
+			e.form = fm
+			if fm == "deflate" {
+				e.content = strings.Repeat(e.content, 2000) // compresses well: declared size far above the stored bytes
+			}
+			jobs = append(jobs, job{goodMod, goodVers, []ent{e}}, job{goodMod, goodVers, []ent{mk(prefixes[0] + "a.go"), e}}, job{goodMod, goodVers, []ent{e, mk(prefixes[0] + "N")}})
+		}
+	}
 	// mode bits in entry headers
 	for _, md := range []string{"dir", "symlink", "exec", "device"} {
 		for _, n := range []string{"a.go", "go.mod", "sub/x.go", "d/", "LICENSE"} {
@@ -387,7 +412,7 @@ func Run(r *fw.Run) {
 		if msg != "" {
 			c := caseT{ModPath: j.mod, Version: j.vers}
 			for _, e := range j.es {
-				c.Entries = append(c.Entries, entryT{Name: strconv.QuoteToASCII(e.name), Size: e.size, Mode: e.mode})
+				c.Entries = append(c.Entries, entryT{Name: strconv.QuoteToASCII(e.name), Size: e.size, Mode: e.mode, Form: e.form})
 			}
 			l.Outcomes["VIOLATION"]++
 			r.Violation(c.key(), msg, c)
@@ -405,7 +430,11 @@ func Replay(r *fw.Run, raw json.RawMessage) {
 	var es []ent
 	for _, e := range c.Entries {
 		n, _ := strconv.Unquote(e.Name)
-		es = append(es, ent{n, contentOf(n), e.Size, e.Mode})
+		ee := ent{name: n, content: contentOf(n), size: e.Size, mode: e.Mode, form: e.Form}
+		if e.Form == "deflate" {
+			ee.content = strings.Repeat(ee.content, 2000)
+		}
+		es = append(es, ee)
 	}
 	r.States.Add(1)
 	r.Transitions.Add(1)
